@@ -81,8 +81,8 @@ def signature(step):
 
 def trace_lines(results):
     lines = []
-    for r in results:
-        lines.append({"k": "reset", "scn": r["id"]})
+    for idx, r in enumerate(results):
+        lines.append({"k": "reset", "scn": r["id"], "idx": idx})
         for o in r["obs"]:
             lines.append({"k": "req", "svc": o["svc"], "ip": o["ip"], "port": o["port"], "kind": o["kind"],
                           "ev": o["ev"], "rep": o["rep"]})
@@ -117,6 +117,8 @@ def solo_interference(lab, res, svc, ip):
     allowance': the replies (svc, ip) got in the mixed scenario must equal the replies it gets when
     only its own requests are sent (fresh server both times)."""
     own = [dict(o) for o in res["obs"] if o["svc"] == svc and o["ip"] == ip]
+    if not own:
+        raise lib.Infra("the rejected trace line (%s, %s) is not part of the scenario it was attributed to" % (svc, ip))
     solo = exec_scenarios(lab, [{"id": 0, "steps": own}], 0, 1, shards=1)[0]
     if solo.get("error"):
         raise lib.Infra("solo run: " + solo["error"])
@@ -218,8 +220,9 @@ def run(tier, lab):
         if not at or at > len(lines):
             raise lib.Infra("trace validation failed without a rejected line:\n" + tr.out[-2000:])
         bad = lines[at - 1]
-        scn = next(lines[k]["scn"] for k in range(at - 1, -1, -1) if lines[k]["k"] == "reset")
-        res = next(r for r in todo if r["id"] == scn)
+        # (scenario ids of the TLC-generated and the random bursts may coincide: the position in the list identifies the scenario)
+        idx = next(lines[k]["idx"] for k in range(at - 1, -1, -1) if lines[k]["k"] == "reset")
+        res = todo[idx]
         # the scenario the specification cannot explain: decide by the property-level predicates
         nviol = len(ck.violations) + len(ck.known)
         over = amplification_oracle(res)
@@ -234,7 +237,7 @@ def run(tier, lab):
         if len(ck.violations) + len(ck.known) == nviol:
             drift.add("trace line not explained by Limiter (violated=%s) but amplification/interference predicates hold: %s"
                       % (tr.violated, json.dumps(bad)))
-        todo = [r for r in todo if r["id"] != scn]
+        todo = todo[:idx] + todo[idx + 1:]
     if drift:
         ck.notes.append("MODEL-DRIFT (specification and code disagree on something the property does not constrain; "
                         "verdict taken from the property-level predicates): " + "; ".join(sorted(drift)[:10]))
